@@ -356,8 +356,6 @@ theorem U256.limbsRight_spec (u : U256) (n : Nat) (hu : u.WF) (hn : n < 256) :
         simp only [W] at *
         refine ⟨by omega, ⟨by omega, by omega, by omega, h3⟩, by omega⟩
 
-theorem W_pos : 0 < W := by decide
-
 theorem U256.shlSmall_spec (u : U256) (n : Nat) (hu : u.WF) (hn : n < 64) :
     (u.shlSmall n).WF ∧ (u.shlSmall n).toNat = u.toNat * 2 ^ n % W ^ 4 := by
   obtain ⟨h3, h2, h1, h0⟩ := hu
